@@ -294,6 +294,9 @@ class TrajectoryStore:
         created: datetime | None = None
         """Creation time global attribute value."""
 
+    _active_in_thread_lock = threading.Lock()
+    """Lock making the check-and-set of `active_in_thread` atomic."""
+
     active_in_thread: int | None = None
     """Thread ID of active TrajectoryStore instance, if any. Multi-threaded
     access is not allowed. This attribute is used to check for this."""
@@ -370,14 +373,15 @@ class TrajectoryStore:
         """
 
         # Check thread activity: must be single-threaded.
-        if TrajectoryStore.active_in_thread is not None:
-            if TrajectoryStore.active_in_thread != threading.get_ident():
-                raise RuntimeError(
-                    'TrajectoryStore: multiple TrajectoryStore instances '
-                    'active in different threads simultaneously.'
-                )
-        else:
-            TrajectoryStore.active_in_thread = threading.get_ident()
+        with TrajectoryStore._active_in_thread_lock:
+            if TrajectoryStore.active_in_thread is not None:
+                if TrajectoryStore.active_in_thread != threading.get_ident():
+                    raise RuntimeError(
+                        'TrajectoryStore: multiple TrajectoryStore instances '
+                        'active in different threads simultaneously.'
+                    )
+            else:
+                TrajectoryStore.active_in_thread = threading.get_ident()
 
         # File access mode for a TrajectoryStore is fixed: if you need to
         # switch mode, close and reopen the store.
